@@ -17,6 +17,7 @@ def main():
     ap.add_argument("--tier", default="quick")
     ap.add_argument("--runs", type=int, default=None)
     ap.add_argument("--budget", type=float, default=None)
+    ap.add_argument("--selftest", action="store_true", help="keep the determinism self-test on")
     args = ap.parse_args()
     a, _, b = args.seeds.partition("-")
     seeds = range(int(a), int(b or a) + 1)
@@ -25,7 +26,9 @@ def main():
         for prop in args.props.split(","):
             env = dict(os.environ, VERIF_SEED=str(seed))
             env.pop("VERIF_PINNED", None)
-            cmd = [sys.executable, "-m", "sim.check", prop, "--tier", args.tier, "--no-evidence", "--no-selftest"]
+            cmd = [sys.executable, "-m", "sim.check", prop, "--tier", args.tier, "--no-evidence"]
+            if not args.selftest:
+                cmd.append("--no-selftest")
             if args.runs:
                 cmd += ["--runs", str(args.runs)]
             if args.budget:
